@@ -158,6 +158,8 @@ impl Module {
         section: wasmparser::ExportSectionReader,
         ids: &IndicesToIds,
     ) -> Result<()> {
+        #[cfg(walrus_verif)]
+        crate::verif::emit("interpret", "export", -1, -1);
         log::debug!("parse export section");
         use wasmparser::ExternalKind::*;
 
